@@ -59,7 +59,9 @@ func runFuseCase(r *vf.Run, p *pool, idx int) {
 		}
 	}
 	for _, im := range c.ims {
-		fix(im)
+		if im.pinOf == nil {
+			fix(im)
+		}
 	}
 	for _, k := range c.keys {
 		if !k.img.published {
@@ -67,7 +69,9 @@ func runFuseCase(r *vf.Run, p *pool, idx int) {
 		}
 	}
 	r.Eval(1)
-	w, err := newWorld(r, filepath.Join(r.Scratch, fmt.Sprintf("fuse-%d", idx)), c.ims, c.wc)
+	w, err := newWorldF(r, filepath.Join(r.Scratch, fmt.Sprintf("fuse-%d", idx)), c.ims, c.wc, func(ref string) bool {
+		return !strings.Contains(base64.StdEncoding.EncodeToString([]byte(ref)), "/")
+	})
 	if err != nil {
 		r.Inconclusive("world setup failed: " + errClass(err))
 		return
